@@ -390,6 +390,8 @@ def _fuse(grp):
     if isinstance(rep, VOpaque):
         if all(a.tag == rep.tag for _, a in grp):
             return rep
+        if all(a.tag.startswith("matchobj") for _, a in grp):
+            return VOpaque(fresh_name("matchobj_merged"))      # still an (always truthy) match object
         return VOpaque(fresh_name("opq_merged"))
     if isinstance(rep, VABytes):
         arr, n = grp[-1][1].arr, grp[-1][1].n
